@@ -53,3 +53,5 @@ Print Assumptions c19_name_inherited.
 Print Assumptions c19_source_facts.
 Print Assumptions c19_bound_callable_own_target.
 Print Assumptions c19_nested_bind_clobbered_if_written_before_refuted.
+Print Assumptions c19_flat_bind_is_bind_then_flat_map.
+Print Assumptions c19_init_order_fact.
